@@ -234,7 +234,21 @@ fn main() {
             jobs.push(RSchema { core: vec![w.clone(), V(RVar::Minor), V(RVar::Patch)], extra_core: vec![], build: vec![] });
             jobs.push(RSchema { core: vec![w.clone(), V(RVar::Ts("MM".into())), V(RVar::Ts("DD".into()))], extra_core: vec![w.clone()], build: vec![w.clone(), V(RVar::Ts("YYYY".into()))] });
         }
-        jobs.par_iter().map(|sc| { let mut st = Stats::default(); st.inc("timestamp_pattern_schemas"); for (name, v) in &tvars { judge(&ctx, sc, name, v, &mut st); } st }).reduce(Stats::default, Stats::merge)
+        // far instants (beyond year 9999: the first second of year 10000, 10^12, a millisecond clock value, 5 * 10^12, the calendar library's last second 8210266876799 -
+        // instants beyond it cannot be given a date by the library and are left open):
+        // the month / day / hour / minute / second / week / two-digit-year patterns are still the UTC calendar fields (the year and the compact forms
+        // are left out there: the calendar library prints a five-digit year with a '+' sign, which the statement does not speak about)
+        let far: Vec<(&'static str, RVars)> = [("year-10000", 253402300800u64), ("1e12", 1_000_000_000_000), ("ms-clock-2024-03-15", 1_710_511_845_000), ("5e12", 5_000_000_000_000), ("last-second", 8_210_266_876_799)].into_iter()
+            .map(|(n, t)| (n, RVars { major: Some(1), minor: Some(2), patch: Some(3), bumped_timestamp: Some(t), last_timestamp: Some(1700000000), custom: json!({}), ..Default::default() })).collect();
+        let mut far_jobs: Vec<RSchema> = vec![];
+        for p in cal::PATTERNS.iter().filter(|p| !["YYYY", "compact_date", "compact_datetime"].contains(p)) {
+            let w = V(RVar::Ts(p.to_string()));
+            far_jobs.push(RSchema { core: base.clone(), extra_core: vec![], build: vec![Str("b".into()), w.clone()] });
+            far_jobs.push(RSchema { core: base.clone(), extra_core: vec![V(RVar::PreRelease), w.clone()], build: vec![] });
+            far_jobs.push(RSchema { core: vec![w.clone(), V(RVar::Minor), V(RVar::Patch)], extra_core: vec![], build: vec![] });
+        }
+        let s_far = far_jobs.par_iter().map(|sc| { let mut st = Stats::default(); st.inc("timestamp_pattern_schemas"); st.inc("far_instant_schemas"); for (name, v) in &far { judge(&ctx, sc, name, v, &mut st); } st }).reduce(Stats::default, Stats::merge);
+        jobs.par_iter().map(|sc| { let mut st = Stats::default(); st.inc("timestamp_pattern_schemas"); for (name, v) in &tvars { judge(&ctx, sc, name, v, &mut st); } st }).reduce(Stats::default, Stats::merge).merge(s_far)
     };
 
     // custom variable paths: keys with '/', '~', digits and dots-as-nesting, paths that run into arrays, objects or nothing
